@@ -555,7 +555,7 @@ impl Prop for C13 {
     fn case_count(&self, tier: Tier) -> u64 {
         match tier {
             Tier::Quick => 1500,
-            Tier::Thorough => 20000,
+            Tier::Thorough => 12000,
         }
     }
     fn fixed_cases(&self, _tier: Tier) -> Vec<Case> {
